@@ -149,32 +149,32 @@ Proof. split; vm_compute; reflexivity. Qed.
 (* EOF after the peer's close, data first *)
 Example ex_ibb_eof_after_close :
   exists s, run ibbf_step ibbf_init
-      [FRead 4; FWait; FData 3; FCheck; FNotify; FWake 4; FRead 4; FWait; FCloseRemote; FWake 4] = Some s /\
+      [FRead 4; FWait; FData CIq 3; FCheck; FNotify; FWake 4; FRead 4; FWait; FCloseRemote; FWake 4] = Some s /\
     fb_outs s = [RdData 3; RdEOF] /\ fb_closed s = true.
 Proof. eexists. split; [vm_compute; reflexivity|]. split; reflexivity. Qed.
 
 (* buffered data is still delivered after a close, then EOF *)
 Example ex_ibb_drain_after_close :
   exists s, run ibbf_step ibbf_init
-      [FData 5; FCheck; FNotify; FCloseLocal; FRead 4; FRead 4; FRead 4; FWait; FWake 4; FWait; FWake 4] = Some s /\
+      [FData CIq 5; FCheck; FNotify; FCloseLocal; FRead 4; FRead 4; FRead 4; FWait; FWake 4; FWait; FWake 4] = Some s /\
     fb_outs s = [RdData 4; RdData 1; RdEOF].
 Proof. eexists. split; [vm_compute; reflexivity|]. reflexivity. Qed.
 
 (* hypotheses of C06_ibb_waiting_reader_is_woken *)
 Example ex_ibb_waiting :
   exists s s1 s2, run ibbf_step ibbf_init [FRead 4; FWait] = Some s /\ fb_rd s = FWaiting /\ fb_h s = FHIdle /\
-    ibbf_step s (FData 2) = Some s1 /\ ibbf_step s1 FCheck = Some s2.
+    ibbf_step s (FData CIq 2) = Some s1 /\ ibbf_step s1 FCheck = Some s2.
 Proof. eexists. eexists. eexists. split; [vm_compute; reflexivity|]. repeat split. Qed.
 
 (* a stale token: the reader wakes, finds nothing and waits again *)
 Example ex_ibb_stale_token :
-  exists s, run ibbf_step ibbf_init [FData 2; FCheck; FNotify; FRead 4; FRead 4; FWait; FWake 4; FWait] = Some s /\
+  exists s, run ibbf_step ibbf_init [FData CIq 2; FCheck; FNotify; FRead 4; FRead 4; FWait; FWake 4; FWait] = Some s /\
     fb_outs s = [RdData 2] /\ fb_rd s = FWaiting /\ fb_tok s = false.
 Proof. eexists. split; [vm_compute; reflexivity|]. repeat split. Qed.
 
 Example ex_ibb_case_ok :
-  ibbf_case_ok (mkibbfcase [FRead 4; FData 3; FCheck; FNotify; FWait] [] 3 3) = true /\
-  ibbf_case_ok (mkibbfcase [FRead 4; FData 3; FCheck; FNotify; FWait] [] 2 3) = false.
+  ibbf_case_ok (mkibbfcase [FRead 4; FData CIq 3; FCheck; FNotify; FWait] [] 3 3) = true /\
+  ibbf_case_ok (mkibbfcase [FRead 4; FData CIq 3; FCheck; FNotify; FWait] [] 2 3) = false.
 Proof. split; vm_compute; reflexivity. Qed.
 
 (* ---- the life of a response ---- *)
